@@ -514,6 +514,9 @@ func callSSA(i *interpreter, caller *frame, callpos token.Pos, fn *ssa.Function,
 		if fn.Synthetic == "package initializer" && i.initAllow != nil && !i.initAllow(fn.Pkg) {
 			return nil
 		}
+		if fn.Pkg != nil && fn.Pkg.Pkg.Path() == "log/slog" {
+			return slogStub(fn)
+		}
 		if fn.Pkg != nil {
 			pp := fn.Pkg.Pkg.Path()
 			if pp == i.rtPath {
@@ -521,7 +524,7 @@ func callSSA(i *interpreter, caller *frame, callpos token.Pos, fn *ssa.Function,
 					return r
 				}
 			}
-			if strings.HasPrefix(pp, i.modulePath) && pp != i.rtPath {
+			if strings.HasPrefix(pp, i.modulePath) && !strings.HasPrefix(pp, i.rtPath) {
 				fr.m.noteFunc(name)
 			}
 		}
@@ -530,7 +533,7 @@ func callSSA(i *interpreter, caller *frame, callpos token.Pos, fn *ssa.Function,
 		}
 	} else if fn.Pkg != nil {
 		pp := fn.Pkg.Pkg.Path()
-		if strings.HasPrefix(pp, i.modulePath) && pp != i.rtPath {
+		if strings.HasPrefix(pp, i.modulePath) && !strings.HasPrefix(pp, i.rtPath) {
 			fr.m.noteFunc(fn.String())
 		}
 	}
@@ -740,4 +743,32 @@ func sanitizeMsg(s string) string {
 		}
 	}
 	return b.String()
+}
+
+// slogStub: logging is inert. Arguments were already evaluated by the caller, so
+// a panic inside a log argument is still found. Results are zero values, except
+// that *Logger results are a non-nil dummy.
+func slogStub(fn *ssa.Function) value {
+	res := fn.Signature.Results()
+	mk := func(t types.Type) value {
+		if p, ok := t.Underlying().(*types.Pointer); ok {
+			if n, ok := p.Elem().(*types.Named); ok && n.Obj().Name() == "Logger" {
+				c := new(value)
+				*c = structure{}
+				return c
+			}
+		}
+		return zero(t)
+	}
+	switch res.Len() {
+	case 0:
+		return nil
+	case 1:
+		return mk(res.At(0).Type())
+	}
+	t := make(tuple, res.Len())
+	for i := range t {
+		t[i] = mk(res.At(i).Type())
+	}
+	return t
 }
